@@ -314,11 +314,10 @@ def verbApi (e : Env) (f : List (List Nat)) : List Nat :=
       match cur with
       | none => emit st none (str "rc=-1")
       | some i =>
-        let ty0 := (((t[3]?).getD []).headD 0)
-        -- type 'a' (assembly text) is exercised with texts the assembly parser rejects only: the call behaves like an
-        -- SQF call whose text the parser rejects (one error-level diagnostic, -3)
-        let env : Sqf.Api.Env := { parse := if ty0 == 97 then (fun _ => none) else assemble e.real, pp := ppModel, parseCfg := fun _ => none }
-        let ty := if ty0 == 97 then 115 else ty0
+        -- type 'a' (assembly text) is exercised with texts the assembly parser rejects only: `parseAsm` of the
+        -- environment is the constant `none` (there is no model of the assembly front end)
+        let env : Sqf.Api.Env := { parse := assemble e.real, pp := ppModel, parseCfg := fun _ => none }
+        let ty := (((t[3]?).getD []).headD 0)
         let r := Sqf.Api.call env i (natOfBytes ((t[2]?).getD [])) ty (unhexBytes ((t[4]?).getD []))
         emit st (some r.1) (str "rc=" ++ renderInt r.2)
     else if op == str "cfg" then
